@@ -38,6 +38,9 @@ THEOREMS = [
     "C21_locks_modes_agree",
     "C21_other_store_never_waits",
     "C21_shared_lock_refutes",
+    "C21_no_connection_scoped_state",
+    "C21_connection_state_modes_agree",
+    "C21_connection_scoped_state_refutes",
 ]
 EXPLANATION = (
     "Lean model WfModel/SqliteConn.lean: the store as a resource-handling state machine. Database content is abstract; what "
@@ -73,7 +76,21 @@ EXPLANATION = (
     "finished, same per-task results, same final tables; a task blocked at quiescence in one mode only is reported with the "
     "operation it is blocked in and the holder of the lock it waits for; hand-computed expectations on the corpus cases in "
     "both modes. K: the lock requests/releases observed through a reporting asyncio.Lock subclass (granted at once / queued / "
-    "handed to which waiter) are diffed against the model's answers for both modes."
+    "handed to which waiter) are diffed against the model's answers for both modes. "
+    "Connection-scoped state: the model has a third layer (`scratchStep`/`runScratch`: TEMP schema objects, attached databases, "
+    "PRAGMA settings as an abstract state of a connection with an abstract per-section semantics; a per-call connection starts "
+    "from the state of a new connection and takes its state along, the persistent one keeps it); the generated list "
+    "`scratchSecs` names the sections whose code, with the helper methods / module functions it reaches, has SQL text on such "
+    "objects; C21_no_connection_scoped_state (decide: the list is empty), C21_connection_state_modes_agree (all histories "
+    "return the same values in both modes and leave the persistent connection as a new one), converse "
+    "C21_connection_scoped_state_refutes. K: the `sec` answer carries `res` (does the section leave such state on the shared "
+    "connection), compared with a probe of the real persistent connection after every section (sqlite_temp_master, "
+    "database_list). S: after every call the persistent connection is probed (TEMP objects, attached databases, 15 PRAGMAs, "
+    "in_transaction) against its state right after construction: `C21/connection_state_left_behind:<what>[<section>]`; "
+    "histories of long-list sweeps (queries / deletes whose filter lists have 120..4000 values, several on one column, "
+    "overlapping and disjoint, all four columns, mixed with short lists, updates and state-store use; handlers with unique run "
+    "ids); every query / delete answer of both modes is compared with a handler table computed from the operations' arguments "
+    "alone: `C21/result_not_determined_by_call:<op>[<mode>;<how>;<filter shape>]`, final handler ids likewise."
 )
 ASSUMPTIONS = [
     "SQLite itself: a statement that fails changes nothing; a new connection sees exactly the committed content; closing a "
@@ -97,6 +114,15 @@ ASSUMPTIONS = [
     "asyncio.Lock itself (not re-entrant, FIFO hand-over) is modelled, and compared with the real lock on every generated "
     "schedule; `lockPerStore` is recognised from the source shape (one attribute of self, a cached_property returning a new "
     "asyncio.Lock() or assigned so in __init__) -- any other shape fails C21_lock_per_store rather than being interpreted",
+    "connection-scoped state: a section without SQL text on TEMP / ATTACH / PRAGMA objects neither reads nor changes them (a "
+    "TEMP table shadowing a main table would be read by any section: the run-time probe after every section is the check for "
+    "that); the migration runner (migrate.py, PRAGMA journal_mode / user_version during construction) is not scanned: the "
+    "probe's baseline is the persistent connection right after construction; a failed data-changing statement leaves sqlite3's "
+    "implicit transaction open on the persistent connection until the next commit (modelled as inTx; reported by the probe only "
+    "for calls that returned normally and did not start inside one)",
+    "the handler oracle covers the filter columns (handler_id, workflow_name, status, run_id, idle_since null-ness); it stops "
+    "for the rest of a history at an update_handler_status on a run id shared by several handlers (which one is updated is "
+    "decided by SQLite's row order)",
     "schedules are compared under the scripted scheduler (single thread, one await-free section at a time, no timers): "
     "subscribe_events (polling with timeouts) is exercised only in the virtual-time scenario",
 ]
@@ -1362,10 +1388,12 @@ def run_case(case: dict, table: dict, out: Outcome, tmp: str, idx: int) -> CaseR
                     continue
                 if is_ is None:
                     s_part = f"single=closed/1 percall={_res_word(ip)} open=0 intx=0 s+0/0"
+                    residue = 0
                 else:
                     s_part = (f"single={_res_word(is_)}/{1 if is_.used_shared else 0} percall={_res_word(ip)} "
                               f"open={1 if is_.open_after else 0} intx={1 if is_.intx_after else 0} s+{is_.opened}/{is_.closed}")
-                cr.impl.append(f"{s_part} p+{ip.opened}/{ip.closed}")
+                    residue = 1 if is_.residue else 0
+                cr.impl.append(f"{s_part} p+{ip.opened}/{ip.closed} res={residue}")
             if len(ts) > len(tp):
                 cr.lines.append(f"extra-sections|{op['op']}")
                 cr.impl.append(f"single ran {len(ts) - len(tp)} more section(s) than per-call: {[i.fn for i in ts[len(tp):]]}")
@@ -1435,7 +1463,7 @@ def table_line(table: dict) -> str:
     inst = {n for o in table["ops"] for n in o["secs"]}
     oneconn = all(s["qual"] not in inst or s["acquire"] == "provider" for s in table["secs"])
     return (f"ok={int(ok)} noleak={int(noleak)} oneconn={int(oneconn)} secs={len(table['secs'])} ops={len(table['ops'])} "
-            f"unknowns={table['unknowns']} locks={int(bool(fl.get('lockPerStore')))}")
+            f"unknowns={table['unknowns']} locks={int(bool(fl.get('lockPerStore')))} noscratch={int(not table.get('scratch'))}")
 
 
 def strip_model(line: str) -> str:
@@ -1599,7 +1627,11 @@ def run(env: Env) -> Outcome:
                 "state-store objects of one workflow store (1-3 runs, so also several objects of one run) and workflow-store "
                 "operations, edit_state bodies that work on other stores up to two levels deep / wait for events set by other "
                 "tasks after their writes / yield / fail, random schedules run to quiescence under the scripted scheduler, the "
-                "same schedule in both connection modes; non-trivial = more than one scheduling decision")
+                "same schedule in both connection modes; non-trivial = more than one scheduling decision. Plus long-list "
+                "sweep histories: 6-24 handlers with unique run ids, then 8-18 steps of queries / deletes whose filter lists "
+                "carry 120-4000 values (1-2 swept columns per history, all four columns overall, overlapping and disjoint "
+                "padding, reversed / duplicated lists, second filter, is_idle), short-list calls, updates, "
+                "update_handler_status, state-store use")
     notes: list[str] = []
     table = gen.extract(notes)
     out.notes += notes
@@ -1711,6 +1743,10 @@ def run(env: Env) -> Outcome:
             if mf.get("pend") == "1":
                 f["pend"] = "1"
             impl[i] = f"same={f.get('same')} pend={f.get('pend')} open={f.get('open')}"
+        # `res`: a section flagged as using connection-scoped objects need not leave any on a given call (short list):
+        # the model can only promise `res=0`
+        if l.startswith("sec|") and i < len(impl) and m.endswith(" res=1") and impl[i].endswith(" res=0"):
+            impl[i] = impl[i][:-1] + "1"
     d = diff_streams("sqliteconn", lines, model_out, impl)
     if d is not None:
         out.divergences.append(d)
